@@ -1295,3 +1295,146 @@ Proof.
   rewrite !andb_true_iff. intros [_ HC] Ho. rewrite forallb_forall in HC.
   eapply respects_with_sound. now apply HC.
 Qed.
+
+Theorem check_case_observed_order kc ds calls o :
+  check_case (kc, ds, ObsOrder calls) = true -> In o calls -> order_ok kc ds o.
+Proof.
+  unfold check_case. destruct (build kc ds) as [gs| |]; try discriminate.
+  destruct (sort_groups gs) as [mo| |]; try discriminate.
+  rewrite !andb_true_iff. intros [_ HC] Ho. rewrite forallb_forall in HC.
+  eapply respects_with_sound. now apply HC.
+Qed.
+
+(* ================================================================================================================ *)
+(* K. the reachability function of the correspondence check computes exactly the paths                             *)
+(* ================================================================================================================ *)
+Local Open Scope nat_scope.
+
+Lemma rnodup_In x l : In x (rnodup l) <-> In x l.
+Proof.
+  induction l as [|y r IH]; simpl; [tauto|]. destruct (rmem y r) eqn:E.
+  - rewrite IH. split; [auto|]. intros [<-|H]; [now apply rmem_In|exact H].
+  - simpl. rewrite IH. tauto.
+Qed.
+
+Lemma rnodup_NoDup l : NoDup (rnodup l).
+Proof.
+  induction l as [|y r IH]; simpl; [constructor|]. destruct (rmem y r) eqn:E; [exact IH|].
+  constructor; [|exact IH]. rewrite rnodup_In. now apply rmem_false.
+Qed.
+
+Lemma succs_of_In es x y : In y (succs_of es x) <-> In (x, y) es.
+Proof.
+  unfold succs_of. rewrite in_map_iff. split.
+  - intros [[a b] [E H]]. simpl in E. subst b. apply filter_In in H as [H Hx]. simpl in Hx.
+    apply res_eqb_eq in Hx. now subst.
+  - intros H. exists (x, y). split; [reflexivity|]. apply filter_In. split; [exact H|]. simpl. apply res_eqb_refl.
+Qed.
+
+Section Reach.
+Variable es : list (res * res).
+Variable u : res.
+
+Definition targets_of : list res := rnodup (map snd es).
+
+Record rinv (todo seen : list res) : Prop := {
+  ri_sound : forall x, In x seen -> path es u x;
+  ri_todo : incl todo seen;
+  ri_closed : forall x, In x seen -> ~ In x todo -> forall y, In (x, y) es -> In y seen;
+  ri_nodup : NoDup seen;
+  ri_targets : incl seen targets_of }.
+
+Definition good (seen0 r : list res) : Prop :=
+  incl seen0 r /\ (forall x, In x r -> path es u x) /\ (forall x, In x r -> forall y, In (x, y) es -> In y r).
+
+Lemma reach_good : forall fuel todo seen,
+  rinv todo seen -> (length targets_of - length seen) + length todo < fuel -> good seen (reach fuel es todo seen).
+Proof.
+  induction fuel as [|f IH]; intros todo seen HI Hf; [lia|]. simpl.
+  destruct todo as [|x r].
+  - destruct HI as [S _ C _ _]. split; [apply incl_refl|]. split; [exact S|]. intros y Hy. now apply C.
+  - set (new := rnodup (filter (fun v => negb (rmem v seen)) (succs_of es x))).
+    assert (Hnew : forall y, In y new <-> In (x, y) es /\ ~ In y seen).
+    { intros y. unfold new. rewrite rnodup_In, filter_In, succs_of_In, negb_true_iff, rmem_false. tauto. }
+    destruct HI as [S T C N G].
+    assert (Hx : In x seen) by (apply T; simpl; auto).
+    assert (HI' : rinv (r ++ new) (seen ++ new)).
+    { constructor.
+      - intros y Hy. apply in_app_or in Hy as [Hy|Hy]; [now apply S|].
+        apply Hnew in Hy as [He _]. eapply path_trans; [apply S; exact Hx|now apply path_edge].
+      - intros y Hy. apply in_app_or in Hy as [Hy|Hy]; apply in_or_app; [left; apply T; simpl; auto|now right].
+      - intros y Hy Hnt z Hz.
+        assert (Hnr : ~ In y r) by (intro; apply Hnt; apply in_or_app; now left).
+        assert (Hnn : ~ In y new) by (intro; apply Hnt; apply in_or_app; now right).
+        apply in_app_or in Hy as [Hy|Hy]; [|contradiction].
+        destruct (res_eqb y x) eqn:E.
+        + apply res_eqb_eq in E. subst y. destruct (rmem z seen) eqn:Ez.
+          * apply in_or_app. left. now apply rmem_In.
+          * apply in_or_app. right. apply Hnew. split; [exact Hz|now apply rmem_false].
+        + apply in_or_app. left. apply (C y Hy); [|exact Hz].
+          intros [->|Hr]; [|contradiction]. rewrite res_eqb_refl in E. discriminate.
+      - apply nodup_app_intro; [exact N|apply rnodup_NoDup|]. intros y Hy Hn. apply Hnew in Hn. tauto.
+      - intros y Hy. apply in_app_or in Hy as [Hy|Hy]; [now apply G|].
+        apply Hnew in Hy as [He _]. unfold targets_of. apply rnodup_In. apply in_map_iff. exists (x, y). auto. }
+    assert (Hlen : length (seen ++ new) <= length targets_of).
+    { apply NoDup_incl_length; [apply (ri_nodup _ _ HI')|apply (ri_targets _ _ HI')]. }
+    destruct (IH (r ++ new) (seen ++ new) HI') as [G1 [G2 G3]].
+    { rewrite !app_length in *. simpl in Hf. lia. }
+    split; [|split; assumption]. intros y Hy. apply G1. apply in_or_app. now left.
+Qed.
+
+(* descendants = the nodes reachable by a non-empty path *)
+Theorem descendants_spec v : In v (descendants es u) <-> path es u v.
+Proof.
+  unfold descendants. set (s := rnodup (succs_of es u)).
+  assert (Hs : forall y, In y s <-> In (u, y) es) by (intros y; unfold s; now rewrite rnodup_In, succs_of_In).
+  assert (HI : rinv s s).
+  { constructor.
+    - intros x Hx. apply path_edge. now apply Hs.
+    - apply incl_refl.
+    - intros x Hx Hn. contradiction.
+    - apply rnodup_NoDup.
+    - intros x Hx. apply Hs in Hx. unfold targets_of. apply rnodup_In. apply in_map_iff. exists (u, x). auto. }
+  destruct (reach_good (2 * length es + 2) s s HI) as [G1 [G2 G3]].
+  { assert (length targets_of <= length es).
+    { unfold targets_of. rewrite <- (map_length snd es).
+      apply NoDup_incl_length; [apply rnodup_NoDup|]. intros x Hx. exact (proj1 (rnodup_In _ _) Hx). }
+    pose proof (NoDup_incl_length (ri_nodup _ _ HI) (ri_targets _ _ HI)). lia. }
+  split; [apply G2|].
+  intros Hp.
+  assert (Hgen : forall x y, path es x y -> (x = u \/ In x (reach (2 * length es + 2) es s s)) ->
+                             In y (reach (2 * length es + 2) es s s)).
+  { induction 1 as [x y He|x w y _ IH1 _ IH2]; intros Hx.
+    - destruct Hx as [->|Hx]; [apply G1; now apply Hs|now apply (G3 x)].
+    - apply IH2. right. now apply IH1. }
+  apply (Hgen u v Hp). now left.
+Qed.
+End Reach.
+
+(* the relation the correspondence requires to be equal: which initializer groups must precede which *)
+Theorem same_constraints_spec inits es es' :
+  same_constraints inits es es' = true <->
+  forall a b, In a inits -> In b inits -> (path es a b <-> path es' a b).
+Proof.
+  unfold same_constraints. rewrite forallb_forall. split.
+  - intros H a b Ha Hb. specialize (H a Ha). rewrite forallb_forall in H. specialize (H b Hb).
+    apply Bool.eqb_prop in H. rewrite <- !descendants_spec, <- !rmem_In, H. tauto.
+  - intros H a Ha. apply forallb_forall. intros b Hb. specialize (H a b Ha Hb).
+    rewrite <- !descendants_spec, <- !rmem_In in H.
+    destruct (rmem b (descendants es a)), (rmem b (descendants es' a)); simpl; try reflexivity;
+      destruct H as [H1 H2]; try (specialize (H1 eq_refl); discriminate); specialize (H2 eq_refl); discriminate.
+Qed.
+
+(* what the correspondence check establishes about the observed graph: the implementation's graph constrains the
+   initializer groups exactly as the model's graph does *)
+Theorem check_case_constraints kc ds ogs oes calls :
+  check_case (kc, ds, ObsOk ogs oes calls) = true ->
+  exists gs, build kc ds = Ok gs /\
+    forall a b, In a (filter is_init (nodes_of gs)) -> In b (filter is_init (nodes_of gs)) ->
+                (path (edges_of gs) a b <-> path oes a b).
+Proof.
+  unfold check_case. destruct (build kc ds) as [gs| |]; try discriminate.
+  destruct (sort_groups gs) as [mo| |]; try discriminate.
+  rewrite !andb_true_iff. intros [[[_ HS] _] _]. exists gs. split; [reflexivity|].
+  now apply same_constraints_spec.
+Qed.
